@@ -1352,3 +1352,71 @@ Proof. vm_compute. reflexivity. Qed.
 Example ex_log_ok :
   log_ok [Fin 8; Fin 0; Fin (-3); NaN; PInf] [Fin 17; NInf; NaN; NaN; PInf].
 Proof. reflexivity. Qed.
+
+(* ======================================================================== *)
+(* signed integer input arrays: norm() wraps in the dtype of the array        *)
+(* ======================================================================== *)
+Lemma wrap_int_small w x :
+  0 < w -> - 2 ^ (w - 1) <= x < 2 ^ (w - 1) -> wrap_int w x = x.
+Proof.
+  intros Hw Hx. unfold wrap_int.
+  assert (E : 2 ^ w = 2 * 2 ^ (w - 1)).
+  { replace w with (Z.succ (w - 1)) at 1 by lia. rewrite Z.pow_succ_r by lia. reflexivity. }
+  rewrite E. rewrite Z.mod_small by lia. lia.
+Qed.
+
+(* the range of the (valid) values fits the dtype: same cells as for floats *)
+Lemma discretize_int_no_wrap w ad :
+  0 < w -> ptp ad < 2 ^ (w - 1) -> discretize_int w ad = discretize ad.
+Proof.
+  intros Hw Hp. destruct ad as [|z0 r]; [reflexivity|].
+  unfold ptp in Hp. unfold discretize_int, discretize, zmin_list, zmax_list in *.
+  destruct (fold_min_le r z0) as [Hmn Hmnall]. destruct (fold_max_ge r z0) as [Hmx Hmxall].
+  set (mn := fold_left Z.min r z0) in *. set (mx := fold_left Z.max r z0) in *.
+  assert (Hpow : 0 < 2 ^ (w - 1)) by (apply Z.pow_pos_nonneg; lia).
+  rewrite (wrap_int_small w (mx - mn)) by lia.
+  destruct (mx - mn =? 0) eqn:E; [reflexivity|].
+  assert (Hall : Forall (fun z => mn <= z <= mx) (z0 :: r)).
+  { constructor; [lia|]. rewrite Forall_forall in *. intros z Hz.
+    specialize (Hmnall z Hz). specialize (Hmxall z Hz). lia. }
+  apply map_ext_in. intros z Hz. rewrite Forall_forall in Hall. specialize (Hall z Hz).
+  rewrite (wrap_int_small w (z - mn)) by lia.
+  rewrite Z.quot_div_nonneg by lia.
+  apply Z.mod_small. split.
+  - apply Z.div_pos; lia.
+  - enough ((z - mn) * 299 / (mx - mn) <= 299) by lia.
+    apply Z.div_le_upper_bound; [lia|]. nia.
+Qed.
+
+Lemma grid_int_no_wrap (rng : Type) (seed47 : rng)
+      (choice_st : rng -> Z -> Z -> list Z * rng) w g a b samples ri :
+  0 < w ->
+  ptp (map fin_val (select (good_mask a b) a)) < 2 ^ (w - 1) ->
+  ptp (map fin_val (select (good_mask a b) b)) < 2 ^ (w - 1) ->
+  downsample_grid_int rng seed47 choice_st w g a b samples ri
+  = downsample_grid rng seed47 choice_st g a b samples ri.
+Proof.
+  intros Hw Ha Hb. unfold downsample_grid_int, downsample_grid, grid_phase_int, grid_phase.
+  change (map negb (map2 orb (map is_bad a) (map is_bad b))) with (good_mask a b).
+  now rewrite !discretize_int_no_wrap by assumption.
+Qed.
+
+(* int16 values spanning more than 32767: IndexError for every oracle *)
+Lemma grid_int_wrap_refuted :
+  exists a b samples ri,
+    length a = length b /\ 0 <= samples <= zlen a /\
+    Forall (fun v => - 32768 <= fin_val v < 32768) a /\
+    no_constant_axis a b samples = true /\
+    forall (rng : Type) (seed47 : rng) choice_st g,
+      fst (downsample_grid_int rng seed47 choice_st 16 g a b samples ri) = Err ErrIndex.
+Proof.
+  exists [Fin (-20000); Fin 20000; Fin 0; Fin 1; Fin 2],
+         [Fin 0; Fin 1; Fin 2; Fin 3; Fin 4], 2, true.
+  split; [reflexivity|]. split; [cbn; lia|]. split; [repeat constructor; cbn; lia|].
+  split; [reflexivity|]. intros. reflexivity.
+Qed.
+
+Example ex_int_no_wrap :
+  ptp (map fin_val [Fin (-100); Fin 300; Fin 7]) < 2 ^ (16 - 1) /\
+  discretize_int 16 [-100; 300; 7] = [0; 299; 79].
+Proof. split; [cbn; lia|reflexivity]. Qed.
